@@ -249,6 +249,39 @@ func checkC09(c *Ctx) *report.Result {
 					r.Ob("R-bank", n == 2 && okOff && okBank && len(ev.Panics) == 0, fmt.Sprintf("%s, %s: enabled %s", sz, cs.tag, kind), hpos(ev), detail)
 				}
 			}
+			// MBC3 with a clock register selected (values 8-F at 4000-5FFF): the window is not RAM -
+			// a write stores into no RAM cell and a read depends on no RAM cell
+			if name == "mbc3" {
+				v, _ := newV("ramb")
+				v = ai.WithBit(v, 3, true)
+				var st *ai.State
+				for i, w := range []wr{{0x4000, v}, {0x0000, ai.NewConstInt(8, false, 0x0A)}} {
+					var ev *DecEval
+					if i == 0 {
+						ev = c.evalDecoder(true, w.addr, w.addr, env.setup(8, banks, setEn(false)), w.v)
+					} else if st != nil {
+						ev = c.evalDecoderFrom(st, true, w.addr, w.addr, nil, w.v)
+					}
+					if ev != nil {
+						st = ev.Post
+					}
+				}
+				if st == nil {
+					r.Fail("undecided", "R-gate", sz+", clock register selected", "", "control writes have no post-state")
+				} else {
+					w := c.evalDecoderFrom(st, true, 0xA000, 0xBFFF, nil, nil)
+					var arr []string
+					for k := range w.Stores {
+						if strings.Contains(k, "[") {
+							arr = append(arr, k)
+						}
+					}
+					r.Ob("R-gate", len(arr) == 0 && w.Post != nil, sz+": window write with a clock register selected stores into no RAM cell", hpos(w), fmt.Sprintf("array cells stored: %v", arr))
+					rd := c.evalDecoderFrom(st, false, 0xA000, 0xBFFF, nil, nil)
+					_, _, n := bankIndex(rd, storage)
+					r.Ob("R-gate", n == 0 && rd.Post != nil, sz+": window read with a clock register selected loads no RAM cell", hpos(rd), fmt.Sprintf("RAM element accesses: %d", n))
+				}
+			}
 			// retain: control writes never store into RAM storage
 			for _, iv := range c.elementaryIntervals() {
 				if iv[1] > 0x7FFF {
